@@ -71,6 +71,7 @@ Definition classify (s : state) (e : ev) (s1 : state) (st : list N) : list N :=
   | ETunErr pkts => bump (bump st 29 1) 1 (lenN pkts)
   | EFatalRead => bump st 30 1
   | EStraggle _ _ _ => bump st 31 1
+  | ELateSend _ => bump st 32 1
   | ETun pkts =>
       let routed := count (fun p => match p with TRoute j => match find_peer j (s_peers s) with Some _ => true | None => false end
                                               | _ => false end) pkts in
@@ -102,4 +103,4 @@ Fixpoint stats_run (s : state) (evs : list ev) (st : list N) : list N :=
   | e :: r => let s1 := step_state s e in stats_run s1 r (classify s e s1 st)
   end.
 Definition stats (ks : list case) : list N :=
-  fold_left (fun st k => stats_run (init (c_cfg k)) (map fst (c_trace k)) st) ks (repeat 0 32).
+  fold_left (fun st k => stats_run (init (c_cfg k)) (map fst (c_trace k)) st) ks (repeat 0 33).
